@@ -8,7 +8,8 @@ import "fmt"
 //      items[k] is the item that was set for index lastIndex-len+1+k.
 // Items carry their index as a ghost tag (an int boxed in interface{}).
 // Bounds: size 2..4 (quick) / 2..6 (thorough); lastIndex, index, skip symbolic
-// ints with |x| < 2^40 (window arithmetic cannot wrap).
+// ints; lastIndex < 2^40, the operation arguments range over ALL of int (values
+// next to MinInt/MaxInt included).
 
 func verifMkRolling(tag string) (r *RollingIndex, size, n int, last int) {
 	maxSize := 4
@@ -55,10 +56,12 @@ func verifRollingInv(r *RollingIndex) bool {
 
 func VerifHarness_C16_O1set() {
 	r, size, n, last := verifMkRolling("")
-	index := verifNondetInt("index")
-	verifAssume(index > -(1<<40) && index < 1<<40)
+	index := verifNondetInt("index") // any int
 	oldest := last - n + 1
-	err := r.Set(index, index) // the item carries its own index as tag
+	var err error
+	if verifCrashFree("set-does-not-panic", func() { err = r.Set(index, index) }) { // the item carries its own index as tag
+		return
+	}
 	switch {
 	case n > 0 && index > last+1:
 		verifAssert("skipped-index-refused", IsStore(err, SkippedIndex))
@@ -119,10 +122,13 @@ func VerifHarness_C16_O1overwrite() {
 
 func VerifHarness_C16_O1get() {
 	r, _, n, last := verifMkRolling("")
-	skip := verifNondetInt("skip")
-	verifAssume(skip > -(1<<40) && skip < 1<<40)
+	skip := verifNondetInt("skip") // any int, including values next to MinInt64 / MaxInt64
 	oldest := last - n + 1
-	res, err := r.Get(skip)
+	var res []interface{}
+	var err error
+	if verifCrashFree("get-does-not-panic", func() { res, err = r.Get(skip) }) {
+		return
+	}
 	switch {
 	case skip > last || n == 0 && skip >= last:
 		verifAssert("nothing-newer", err == nil && len(res) == 0)
@@ -146,10 +152,13 @@ func VerifHarness_C16_O1get() {
 
 func VerifHarness_C16_O1item() {
 	r, _, n, last := verifMkRolling("")
-	i := verifNondetInt("i")
-	verifAssume(i > -(1<<40) && i < 1<<40)
+	i := verifNondetInt("i") // any int
 	oldest := last - n + 1
-	it, err := r.GetItem(i)
+	var it interface{}
+	var err error
+	if verifCrashFree("get-item-does-not-panic", func() { it, err = r.GetItem(i) }) {
+		return
+	}
 	switch {
 	case i < oldest:
 		verifAssert("item-too-late", IsStore(err, TooLate))
@@ -189,3 +198,8 @@ func VerifHarness_C16_O1seq() {
 	}
 	verifReach("end")
 }
+
+
+// C08/O3 — the per-participant index is read with requester-controlled skip
+// values (SyncRequest.Known): no value may crash it (same obligation as C16/O1get).
+func VerifHarness_C08_O3rolling() { VerifHarness_C16_O1get() }
